@@ -408,6 +408,22 @@ func (vc *VC) allocFact(term string, t types.Type, a string) string {
 		return fmt.Sprintf("(< (s_arr %s) %s)", term, a)
 	case *types.Interface:
 		return fmt.Sprintf("(< (i_ref %s) %s)", term, a)
+	case *types.Struct:
+		if vc.isOpaqueStruct(t) {
+			return ""
+		}
+		u := t.Underlying().(*types.Struct)
+		var parts []string
+		for i := 0; i < u.NumFields(); i++ {
+			f := u.Field(i)
+			if af := vc.allocFact(fmt.Sprintf("(%s %s)", vc.accessor(t, f.Name()), term), f.Type(), a); af != "" {
+				parts = append(parts, af)
+			}
+		}
+		if len(parts) == 0 {
+			return ""
+		}
+		return "(and " + strings.Join(parts, " ") + ")"
 	}
 	return ""
 }
